@@ -30,7 +30,7 @@ DETS = {"DDM": 150, "EDDM": 150, "STEPD": 120, "PageHinkley": 150, "CUSUM": 150,
 
 def scenarios(tier):
     k = 1 if tier == "quick" else 10
-    return [(n, v * k) for n, v in DETS.items()]
+    return [(n, 2 * v * k) for n, v in DETS.items()]
 
 
 def gen(rng, scenario, tier):
